@@ -272,6 +272,15 @@ func (e *env) corpusFiles() [][]opT {
 
 func (e *env) corpus() [][]opT {
 	return append(e.corpusFiles(), [][]opT{
+		// ICS-20 channels are unordered: three EVM-started transfers with consecutive sequences in flight on one channel, the
+		// LAST one is acknowledged first (success) — the records of the two below it must live on until their own timeout /
+		// error acknowledgement, which must come back as ERC-20
+		{{Kind: "sendevm", Chan: 0, User: 0, Denom: "alias0", Amt: 50}, {Kind: "sendevm", Chan: 0, User: 1, Denom: "alias0", Amt: 60},
+			{Kind: "sendevm", Chan: 0, User: 2, Denom: "alias0", Amt: 70}, {Kind: "ack", Chan: 0, Seq: 3, OK: true},
+			{Kind: "timeout", Chan: 0, Seq: 2}, {Kind: "ack", Chan: 0, Seq: 1, OK: false},
+			{Kind: "sendevm", Chan: 1, User: 1, Denom: "alias1", Amt: 20}, {Kind: "sendplain", Chan: 1, User: 1, Denom: "alias1", Amt: 10},
+			{Kind: "sendevm", Chan: 1, User: 2, Denom: "alias1", Amt: 30}, {Kind: "ack", Chan: 1, Seq: 13, OK: true, AckKind: "result0"},
+			{Kind: "ack", Chan: 1, Seq: 12, OK: true}, {Kind: "timeout", Chan: 1, Seq: 11, AckKind: "onclose"}},
 		// the two ends of a channel carry different ids (channel-11 <-> channel-7 there), and local channel-7 is named like the
 		// remote end of channel-11. Equal sequences (1) are in flight on both: an EVM-started transfer on channel-7 and a plain
 		// bank transfer on channel-11. The plain one times out first: it must come back as bank coins and must not touch the
